@@ -302,6 +302,8 @@ func (d *drvInst) genuineReplies(s sendRecD, idx int) []reply {
 				reply{"te_outer_rr", te4(r, c.l4(), 11, 0, P, rr, [4]byte{})},
 				reply{"te_rewritten", te4(r, c.l4(), 11, 0, rewr, nil, [4]byte{})},
 				reply{"te_from_target", te4(c.t4(), c.l4(), 11, 0, q28, nil, [4]byte{})},
+				reply{"te_quoted_opts_rr", te4(r, c.l4(), 11, 0, quoteWithOptions(P, rr, false), nil, [4]byte{})},
+				reply{"te_quoted_opts_nop28", te4(r, c.l4(), 11, 0, quoteWithOptions(P, nopts, true), nil, [4]byte{})},
 			)
 		}
 		switch c.variant {
@@ -515,6 +517,25 @@ func drvConfigs(r *rng, thorough bool) []drvCfg {
 		}
 	}
 	return out
+}
+
+// quoteWithOptions is the probe as a router quotes it after an on-path device added IP options to its header (IHL 6 or 7,
+// total length and header checksum adjusted); short: only the header and the first 8 transport bytes.
+func quoteWithOptions(P []byte, opts []byte, short bool) []byte {
+	if len(P) < 20 {
+		return P
+	}
+	q := append([]byte(nil), P[:20]...)
+	q = append(q, opts...)
+	q = append(q, P[20:]...)
+	q[0] = byte(0x40 | (20+len(opts))/4)
+	binary.BigEndian.PutUint16(q[2:], uint16(len(q)))
+	q[10], q[11] = 0, 0
+	binary.BigEndian.PutUint16(q[10:], inetCksum(q[:20+len(opts)]))
+	if short && len(q) > 20+len(opts)+8 {
+		q = q[:20+len(opts)+8]
+	}
+	return q
 }
 
 // sackOddOptions builds ACKs from the target on the run's flow whose SACK option lengths are not 2+8k.
